@@ -358,6 +358,20 @@ def one_graph(sio, spec, opts):
         rec["load"] = "raises:" + type(e).__name__ + ":" + str(e)[:160]
         return rec
     rec["load"] = "ok"
+    # -- 5. abstraction of the loaded graph (before anything else looks at it: hasattr(x, '__dict__') alone
+    #       materialises the namespace dict of a functools.partial and changes its __reduce__)
+    q1, e1 = run_dump(sio, obj2, hold=True)
+    q2, e2 = run_dump(sio, obj2, hold=True)
+    if isinstance(e1, Exception) or isinstance(e2, Exception):
+        rec["redump"] = "raises:" + type(e1).__name__
+    else:
+        heap2, root2, _ = abstract(q1, q2)
+        rec["seq2"], _ = canon_seq(heap2, root2)
+        rec["kinds2"] = [h[0] for h in heap2] == [h[0] for h in heap] if len(heap2) == len(heap) else False
+        with zipfile.ZipFile(io.BytesIO(e1)) as z:
+            rec["members_reloaded"] = len(id_members(z.namelist()))
+    del q1, q2
+    # -- 6. contents and the independent identity partition
     fp2 = fingerprint(obj2)
     rec["same"] = fp2 == fp0
     if not rec["same"]:
@@ -368,17 +382,6 @@ def one_graph(sio, spec, opts):
         rec["part0"], rec["part2"] = p0[:40], p2[:40]
     rec["groups"] = len(p0)
     rec["shared_groups"] = sum(1 for g in p0 if len(g) > 1)
-    # -- 5. abstraction of the loaded graph
-    q1, e1 = run_dump(sio, obj2, hold=True)
-    q2, e2 = run_dump(sio, obj2, hold=True)
-    if isinstance(e1, Exception) or isinstance(e2, Exception):
-        rec["redump"] = "raises:" + type(e1).__name__
-        return rec
-    heap2, root2, _ = abstract(q1, q2)
-    rec["seq2"], _ = canon_seq(heap2, root2)
-    rec["kinds2"] = [h[0] for h in heap2] == [h[0] for h in heap] if len(heap2) == len(heap) else False
-    with zipfile.ZipFile(io.BytesIO(e1)) as z:
-        rec["members_reloaded"] = len(id_members(z.namelist()))
     return rec
 
 
